@@ -6,8 +6,9 @@ import sys
 
 import numpy as np
 
-from .. import common, gen_all, curves, fits
+from .. import common, gen_all, curves, fits, m1
 from ..common import coq_float
+from ..fits import flist
 
 SITE = "nanite.fit.IndentationFitter.fit"
 SITE_OPT = "nanite.fit.IndentationFitter.compute_opt_mindelta"
@@ -205,7 +206,7 @@ def check_relative(run):
 def check_plateau(run):
     n = 4 if run.tier == "quick" else 30
     exprs, descr = [], []
-    for i in range(n):
+    for i in range(n + 3):
         cols = base_curve(seed=200 + i, n_app=140, n_ret=50)
         ns = run.rng.choice([8, 10, 13, 20])
         rmax = run.rng.choice([1e-6, 2e-6, float("inf")])
@@ -218,6 +219,13 @@ def check_plateau(run):
             # the shallowest scanned depth): still the requested number of
             # samples
             rx = [-4e-6, -6e-7]
+        if i >= n:
+            # an upper limit deep inside the indentation: the plateau depth
+            # found may lie ABOVE it; the final fit then uses the few points
+            # between the two (not the whole segment)
+            xmin_ = float(np.min(cols["tip position"]))
+            rx = [[float("-inf"), 0.6 * xmin_], [0.85 * xmin_, -1.0],
+                  [float("-inf"), 0.75 * xmin_]][i - n]
         cfg = {"num_samples": ns, "range_x": rx, "seed": 200 + i}
         idnt = curves.make_indentation(cols)
         key = f"plateau:{ns}:{rx}:{200 + i}"
@@ -355,6 +363,110 @@ def scan_history_cases(run):
                         theorem="C05_plateau_grid")
 
 
+PLATEAU_HEAD = """From Coq Require Import List Bool PrimFloat.
+From NV Require Import Base.Exn Model.FitCore Model.FitCoreF Model.Plateau Model.PlateauF.
+Import ListNotations.
+Definition f_close (a b : float) : bool :=
+  PrimFloat.leb (PrimFloat.abs (PrimFloat.sub a b))
+                (PrimFloat.mul 0x1p-40%float (PrimFloat.add (PrimFloat.abs a) (PrimFloat.abs b))).
+Definition agrees (s ind : list float) (r : res float) : bool :=
+  match f_plateau s, r with
+  | Ok p, Ok d => f_close (f_opt_depth ind p) d
+  | Err e, Err f => exn_eqb e f
+  | _, _ => false
+  end.
+"""
+
+
+def emodulus_curves(rng, n):
+    """E(delta) shapes: plateau after a ramp, a long plateau below the bin
+    size with higher ones behind it, noise around a level, constants of
+    either sign, staircases, values around zero, steps into the negative,
+    a decay with a dip"""
+    out = []
+    for i in range(n):
+        m = int(rng.integers(8, 70))
+        kind = i % 8
+        if kind == 0:
+            k = int(rng.integers(2, m - 2))
+            e = np.concatenate([np.linspace(5000, 1000, k),
+                                np.full(m - k, 1000.0)])
+        elif kind == 1:
+            a = int(rng.integers(3, m // 2 + 1))
+            b = int(rng.integers(1, max(2, (m - a) // 2)))
+            e = np.concatenate([np.full(a, 1.0), np.full(b, 500.0),
+                                np.full(m - a - b, 1000.0)])
+        elif kind == 2:
+            e = 3000 + rng.normal(0, 300, m)
+        elif kind == 3:
+            e = np.full(m, float(rng.uniform(10, 1e4))
+                        * (1 if rng.random() < 0.5 else -1))
+        elif kind == 4:
+            e = np.repeat(rng.uniform(100, 5000, int(rng.integers(2, 7))),
+                          int(rng.integers(2, 9)))[:m]
+        elif kind == 6:
+            e = rng.uniform(-1, 0.05, m) * float(rng.uniform(1, 100))
+        elif kind == 7:
+            e = np.repeat(np.linspace(3, -8, int(rng.integers(3, 12))),
+                          int(rng.integers(1, 7)))[:m]
+        else:
+            e = 4000 * np.exp(-np.linspace(0, 3, m))
+            e[rng.integers(0, m)] = 1e-3
+        if kind not in (3, 7):
+            e = e + rng.normal(0, 1e-6, e.size)
+        out.append((kind, np.asarray(e, float)))
+    return out
+
+
+def plateau_selection_cases(run):
+    """compute_opt_mindelta called directly on generated E(delta) curves: the
+    binning, the labelling of sequences, the selection loop and the index
+    range whose mean is returned are recomputed by the Coq model from the
+    filtered moduli (scipy's filtfilt observed); the depth lies inside the
+    scanned depths"""
+    import nanite.fit as nfit
+    rng = np.random.default_rng((run.seed + 77) % (2 ** 32))
+    n = 80 if run.tier == "quick" else 1200
+    exprs, descr = [], []
+    orig = nfit.spsig.filtfilt
+    for kind, e in emodulus_curves(rng, n):
+        if e.size <= 6:
+            continue
+        ind = np.linspace(-2e-6, -1e-7, e.size) + rng.normal(0, 1e-9, e.size)
+        cap = {}
+
+        def ff(b, a, x, *k, **kw):
+            r = orig(b, a, x, *k, **kw)
+            cap["s"] = np.array(r, float, copy=True)
+            return r
+        nfit.spsig.filtfilt = ff
+        try:
+            with warnings.catch_warnings():
+                warnings.simplefilter("ignore")
+                d = float(nfit.IndentationFitter.compute_opt_mindelta(e, ind))
+            out = f"Ok {coq_float(d)}"
+        except BaseException as ex:
+            if isinstance(ex, (KeyboardInterrupt, SystemExit)):
+                raise
+            d, out = None, "Err " + m1.exn_coq(type(ex).__name__)
+        finally:
+            nfit.spsig.filtfilt = orig
+        run.case({"plateau-selection": kind, "n": int(e.size),
+                  "outcome": out[:3]}, kind=f"plateau-selection:{out[:3]}")
+        if "s" not in cap:
+            continue
+        exprs.append(f"agrees {flist(cap['s'])} {flist(ind)} ({out})")
+        descr.append(f"shape {kind}, {e.size} samples -> {out[:40]}")
+        if d is not None and not (ind.min() <= d <= ind.max()):
+            run.failing(SITE, "plateau-selection:" + common.sha(
+                [kind, e.tolist()])[:12], f"E(delta) shape {kind} with "
+                f"{e.size} samples: optimal depth {d!r} outside the scanned "
+                f"depths [{ind.min()!r}, {ind.max()!r}]",
+                payload={"kind": "rerun"}, theorem="C05_plateau_indices")
+    fits.eval_bool_cases(run, "c05_plateau_sel", exprs, descr,
+                         head=PLATEAU_HEAD, chunk=40)
+
+
 def plateau_then_plain_cases(run):
     """a plateau search followed by a plain fit that does not restate the
     interval: the plain fit uses the interval the caller gave (the stored
@@ -412,8 +524,10 @@ def check(run):
     run.assumptions = [
         "abscissae contain no NaN (a NaN abscissa is kept by the code; stated,"
         " not explored)",
-        "the plateau labelling (Butterworth filter, binning) is an oracle: "
-        "only its finishing step is modelled",
+        "scipy's Butterworth filter (filtfilt) is an oracle: its output is "
+        "observed and handed to the model of the binning, sequence "
+        "labelling, selection loop and final index range "
+        "(coq/Model/Plateau.v)",
         "numpy.linspace computes arange(n-1)*step+start with the last sample "
         "set to stop (mirrored; checked bit-exactly)",
     ]
@@ -422,6 +536,7 @@ def check(run):
     check_plateau(run)
     scan_history_cases(run)
     plateau_then_plain_cases(run)
+    plateau_selection_cases(run)
     known_plateau_findings(run)
     run.rule = ("intervals with boundaries on sample abscissae, one ulp "
                 "beside them, inverted, one-sided, zero-width, empty x segment"
